@@ -3,6 +3,8 @@ import JV.Drv.Common
 import JV.Spec.Cbor
 import JV.Spec.BinFormats
 import JV.Model.Cbor
+import JV.Model.Msgpack
+import JV.Model.Ubjson
 namespace JV
 namespace Drv
 open Spec.Cbor
@@ -107,6 +109,16 @@ def binaryLine : List String → String
   | "menc" :: "cbor" :: toks =>
     match cvOfTokens toks with
     | some (v, []) => "ok x" ++ Wire.hexOfBytes (Model.Cbor.encode v)
+    | _ => ""
+  | "menc" :: "msgpack" :: toks =>
+    -- bin menc msgpack <wire value (core)>  →  the bytes encode_msgpack writes for it
+    match cvOfTokens toks with
+    | some (v, []) => "ok x" ++ Wire.hexOfBytes (Model.Msgpack.encode v)
+    | _ => ""
+  | "menc" :: "ubjson" :: toks =>
+    -- bin menc ubjson <wire value (core)>  →  the bytes encode_ubjson writes for it | err (an integer above 2^63-1)
+    match cvOfTokens toks with
+    | some (v, []) => if Model.Ubjson.representable v then "ok x" ++ Wire.hexOfBytes (Model.Ubjson.encode v) else "err"
     | _ => ""
   | _ => ""
 
